@@ -24,7 +24,7 @@ META = {
     'exhaustive': True,
 }
 
-META['explanation'] += ' ' + 'R1: both extracted layouts against sa/specs/tls.json, length fields computed from the written data, attribute names of spec items (a named position that is read and dropped, or composed as a constant, is a finding). R5: variant lists - every class but the last can decline. R6: explicit rejections against the reviewed table. R7: the shared flag / timestamp primitives tabulated (gmt_unix_time, SCT timestamps incl. values beyond 2^32).'
+META['explanation'] += ' ' + 'R1: both extracted layouts against sa/specs/tls.json, length fields computed from the written data, attribute names of spec items (a named position that is read and dropped, or composed as a constant, is a finding). R5: variant lists - every class but the last can decline. R6: explicit rejections against the reviewed table. R7: the shared flag / timestamp primitives tabulated (gmt_unix_time, SCT timestamps incl. values beyond 2^32). R8: the two extension dispatch tables evaluated; a type whose body differs between client and server hello (sent_by in sa/specs/tls.json) goes to the structure of the table\'s own side.'
 MODULES = {'cryptoparser.tls.record', 'cryptoparser.tls.subprotocol', 'cryptoparser.tls.extension', 'cryptoparser.tls.version',
            'cryptoparser.tls.grease', 'cryptoparser.common.x509'}
 HERE = os.path.dirname(os.path.dirname(os.path.abspath(__file__)))
@@ -45,8 +45,65 @@ def check(ctx, report):
     report.rule('C06.R7', 'timestamp fields (gmt_unix_time, SCT): the primitive writes seconds / milliseconds since the epoch in UTC, width-sized sentinel')
     flags_and_timestamps(ctx, report, R4='C06.R7', R5='C06.R7')
     report.floor('C06.R7', 100, 'tabulated flag words and instants')
+    dispatch_sides(ctx, report)
     report.floor('C06.R1', 150, 'layout comparisons')
     report.floor('C06.R2', 100, 'registry members')
+
+
+def dispatch_sides(ctx, report, RULE='C06.R8'):
+    """Several extension types have one body in the client hello and another in the server hello (RFC 6962 3.3.1: empty against
+    the SCT list; RFC 8446 4.2.8: three key share forms).  sa/specs/tls.json records which hello a structure is sent in; the two
+    dispatch tables are evaluated and every type of a table must go to the structure of that table's side: a structure of the
+    other side declines conformant data (the vector then keeps the extension as unparsed bytes, so the encoded values are not
+    recovered although nothing fails)."""
+    from ..values import ClassV, DictV
+    from ..model import ClassInfo
+    report.rule(RULE, 'extension dispatch tables: a type with side specific bodies goes to the structure of the table\'s own side')
+    with open(os.path.join(HERE, 'specs', 'tls.json')) as f:
+        spec = json.load(f)
+    sent_by = {k: v['sent_by'] for k, v in spec['structures'].items() if v.get('sent_by')}
+    model, it = ctx.model, ctx.interp
+    by_type = {}
+    for name, side in sorted(sent_by.items()):
+        c = model.try_cls(name)
+        if c is None:
+            report.error('%s: %s of sa/specs/tls.json vanished' % (RULE, name))
+            continue
+        t = it.const_call(c, 'get_extension_type')
+        by_type.setdefault((show_member(t), side), []).append(name)
+    for table, side in sorted(spec['dispatch']['tables'].items()):
+        c = model.try_cls(table)
+        if c is None or c.resolve('_get_variants') is None:
+            report.error('%s: dispatch table %s vanished' % (RULE, table))
+            continue
+        report.touch(c.resolve('get_parsed_extensions'))
+        v = it.const_call(c, '_get_variants')
+        if not isinstance(v, DictV):
+            report.error('%s: dispatch table %s is not statically evaluable' % (RULE, table))
+            continue
+        for tag, lst in v.pairs:
+            items = [x.cls.name for x in (it.iter_items(lst) or []) if isinstance(x, ClassV) and isinstance(x.cls, ClassInfo)]
+            for n in items:
+                if n in sent_by:
+                    report.count(RULE)
+                    if sent_by[n] != side:
+                        report.add(RULE, '%s@dispatch[%s]' % (c.construct, show_member(tag)),
+                                   'the %s table decodes %s with %s, the structure sent by the %s (%s): conformant data of a %s hello is '
+                                   'declined and kept as unparsed bytes' % (side, show_member(tag), n, sent_by[n],
+                                                                          spec['structures'][n].get('sent_by_ref', ''), side))
+            want = by_type.get((show_member(tag), side), [])
+            if want:
+                report.count(RULE)
+                missing = [n for n in want if n not in items]
+                if missing:
+                    report.add(RULE, '%s@dispatch[%s]' % (c.construct, show_member(tag)),
+                               'the %s table does not decode %s with %s (decoded with %s)' % (side, show_member(tag), missing, items))
+    report.floor(RULE, 20, 'side specific dispatch entries')
+
+
+def show_member(t):
+    from ..values import show
+    return show(t)
 
 
 def ssl2_header(ctx, report, RULE='C06.R4'):
